@@ -108,6 +108,8 @@ class Server:
         self.p = None
         self.port = None
         self.stderr_tail = []
+        self.panic_lines = []   # `thread '…' panicked at …` lines plus the message line after each
+        self.exit_status = None
 
     def start(self, wait_s=20):
         os.makedirs(self.dir, exist_ok=True)
@@ -136,6 +138,11 @@ class Server:
                 line = re.sub(r"\x1b\[[0-9;]*m", "", raw.decode("utf-8", "replace"))
                 self.stderr_tail.append(line.rstrip())
                 del self.stderr_tail[:-50]
+                if re.search(r"thread '[^']*' panicked at ", line) or (
+                        self.panic_lines and self.panic_lines[-1].startswith("thread '") and not line.startswith("thread '")
+                        and len(self.panic_lines) % 2 == 1):
+                    self.panic_lines.append(line.rstrip()[:400])
+                    del self.panic_lines[20:]
                 m = re.search(r"nREPL server started on 127\.0\.0\.1:(\d+)", line)
                 if m and self.port is None:
                     self.port = int(m.group(1))
@@ -162,7 +169,17 @@ class Server:
         return self
 
     def panicked(self):
-        return any("panicked" in l for l in self.stderr_tail)
+        """Only a real Rust panic message counts (`thread '…' panicked at file:line:col`), or the server
+        process having died by itself with an abnormal status (checked before we kill it)."""
+        if self.panic_lines:
+            return True
+        if self.p is not None:
+            rc = self.p.poll()
+            if rc is not None:
+                self.exit_status = rc
+                # 124/137 = our own `timeout`; anything else before stop() is abnormal
+                return rc not in (0, 124, 137)
+        return False
 
     def stop(self):
         if self.p is not None:
@@ -622,7 +639,7 @@ def run_schedule(garden, scratch, kind, delays, n, seed, k100, life_s=150):
         with ThreadPoolExecutor(max_workers=min(n, 8)) as ex:
             ress = list(ex.map(lambda sc: run_script(s.port, sc.steps), scs))
         panicked = s.panicked()
-        tail = list(s.stderr_tail[-3:])
+        tail = list(s.panic_lines) or (["exit status %r" % s.exit_status] + list(s.stderr_tail[-3:]))
     for sc, r in zip(scs, ress):
         r["server_panicked"] = panicked
         r["stderr_tail"] = tail
